@@ -345,3 +345,42 @@ def fallible_rng_same(ctx, r, op, *args):
         return
     ctx.expect(q.status in ("OK", "ERR") and (q.status == "ERR" or q.payload == r.payload),
                "%s with a generator whose fallible entry point fails: an error or the same answer, never other bytes (%s)" % (op, q.status))
+
+
+def x25519_clamp(k):
+    c = bytearray(k); c[0] &= 248; c[31] &= 127; c[31] |= 64
+    return bytes(c)
+
+
+RFC7748_VECTORS = [  # RFC 7748 section 5.2: (scalar, u, X25519(scalar, u)); the function clamps, so clamp(scalar) gives the same
+    ("a546e36bf0527c9d3b16154b82465edd62144c0ac1fc5a18506a2244ba449ac4", "e6db6867583030db3594c1a424b15f7c726624ec26b3353b10a903a6d0ab1c4c",
+     "c3da55379de9c6908e94ea4df28d084f32eccf03491c71f754b4075577a28552"),
+    ("4b66e9d4d1b4673c5ad22691957d6af5c11b6421e0ea01d42ca4169e7918ba0d", "e5210f12786811d3f4b7959d0538ae2c31dbe7106fc03c3efc4cd549c715a493",
+     "95cbde9476e8907d7aade45cb4b873f88b595a68799fa152e6f8f7647aac7957")]
+
+
+def x25519_arbitrary_shares(ctx, n):
+    """Curve25519 as key-exchange group: a peer's share is ANY 32-byte u-coordinate that is not of small order - points on
+    the twist and points with a torsion component included.  The shared secret must be RFC 7748's X25519 on all of them
+    (the RFC's own vectors as an anchor; byte comparison with the model's Montgomery ladder for the rest), not a
+    multiplication that is only right on the prime-order subgroup."""
+    L, rnd = ctx.L, ctx.rnd
+    if L.ke != "X25519":
+        return
+    for k, u, want in RFC7748_VECTORS:
+        r = ctx.call("ke_dh", bytes.fromhex(u), x25519_clamp(bytes.fromhex(k)))
+        ctx.expect(r.ok and r.b(0) == bytes.fromhex(want), "RFC 7748 section 5.2 vector (%s..)" % k[:8])
+    sks = [x25519_clamp(ctx.tape(32)) for _ in range(3)] + [(2 ** 254).to_bytes(32, "little"), (2 ** 255 - 8).to_bytes(32, "little")]
+    us = [v.to_bytes(32, "little") for v in range(2, 2 + n)] + [ctx.tape(32) for _ in range(n)]
+    us += [(2 ** 255 - 19 + v).to_bytes(32, "little") for v in (2, 3, 9)]                  # non-reduced encodings
+    us += [bytes(31) + b"\x80", (9).to_bytes(31, "little") + b"\x80"]                     # bit 255 set (ignored by X25519)
+    acc = 0
+    for i, u in enumerate(us):
+        d = ctx.call("ke_pk", u)
+        if not d.ok:
+            continue            # small order / identity: refused by the decoder (C11)
+        acc += 1
+        for sk in (sks[i % len(sks)], sks[(i + 1) % len(sks)]):
+            r = ctx.call("ke_dh", u, sk)
+            ctx.expect(r.ok and len(r.b(0)) == 32, "shared secret with an arbitrary peer share")
+    ctx.expect(acc >= n, "most arbitrary u-coordinates are acceptable peer shares (%d of %d)" % (acc, len(us)))
